@@ -35,18 +35,20 @@ const (
 
 // Reg describes a registration.
 type Reg struct {
-	Class     int    `json:"class"`
-	Ctx       bool   `json:"ctx,omitempty"`
-	Once      bool   `json:"once,omitempty"`
-	Async     bool   `json:"async,omitempty"`
-	Seq       bool   `json:"seq,omitempty"`
-	Filter    int    `json:"filter,omitempty"`    // 0 none, 1 accept-all, 2 reject-all, 3 even ids, 4 odd ids
-	Script    [][]Op `json:"script,omitempty"`    // ops run re-entrantly on the k-th synchronous invocation
-	PanicKind int    `json:"panic,omitempty"`     // 0 none, 1 string, 2 error, 3 struct, 4 nil-deref, 5 panic(nil)
-	PanicMod  uint64 `json:"panic_mod,omitempty"` // panics when id%PanicMod==PanicRem (Mod<=1: always)
-	PanicRem  uint64 `json:"panic_rem,omitempty"`
-	CancelAt  int    `json:"cancel_at,omitempty"` // cancels the publish context on its k-th invocation (1-based), 0 never
-	Replay    bool   `json:"replay,omitempty"`    // registered through SubscribeWithReplay (needs Cfg.Store; plain handler)
+	Class     int      `json:"class"`
+	Ctx       bool     `json:"ctx,omitempty"`
+	Once      bool     `json:"once,omitempty"`
+	Async     bool     `json:"async,omitempty"`
+	Seq       bool     `json:"seq,omitempty"`
+	Filter    int      `json:"filter,omitempty"`    // 0 none, 1 accept-all, 2 reject-all, 3 even ids, 4 odd ids
+	Script    [][]Op   `json:"script,omitempty"`    // ops run re-entrantly on the k-th synchronous invocation
+	PanicKind int      `json:"panic,omitempty"`     // 0 none, 1 string, 2 error, 3 struct, 4 nil-deref, 5 panic(nil)
+	PanicMod  uint64   `json:"panic_mod,omitempty"` // panics when id%PanicMod==PanicRem (Mod<=1: always)
+	PanicRem  uint64   `json:"panic_rem,omitempty"`
+	CancelAt  int      `json:"cancel_at,omitempty"`  // cancels the publish context on its k-th invocation (1-based), 0 never
+	RejectIDs []uint64 `json:"reject_ids,omitempty"` // Filter 5: rejects exactly these event ids
+	CancelIDs []uint64 `json:"cancel_ids,omitempty"` // cancels the publish context when invoked with one of these ids
+	Replay    bool     `json:"replay,omitempty"`     // registered through SubscribeWithReplay (needs Cfg.Store; plain handler)
 }
 
 // Op is one operation of a program.
@@ -269,8 +271,23 @@ func filterFn(kind int) func(uint64) bool {
 	return nil
 }
 
-func accepts(kind int, id uint64) bool {
-	f := filterFn(kind)
+func (r *Reg) filter() func(uint64) bool {
+	if r.Filter == 5 {
+		rej := r.RejectIDs
+		return func(id uint64) bool {
+			for _, x := range rej {
+				if x == id {
+					return false
+				}
+			}
+			return true
+		}
+	}
+	return filterFn(r.Filter)
+}
+
+func (r *Reg) accepts(id uint64) bool {
+	f := r.filter()
 	return f == nil || f(id)
 }
 
@@ -504,7 +521,7 @@ func (e *Engine) doSub(op *Op) {
 	r := &mreg{id: len(e.regs) + 1, typ: op.T, spec: spec}
 	e.regs = append(e.regs, r)
 	d := e.drv(op.T)
-	o := evt.SubOpts{Once: spec.Once, Async: spec.Async, Seq: spec.Seq, Filter: filterFn(spec.Filter)}
+	o := evt.SubOpts{Once: spec.Once, Async: spec.Async, Seq: spec.Seq, Filter: spec.filter()}
 	cb := func(ctx context.Context, id uint64, ok bool) { e.invoke(r, ctx, id, ok) }
 	var err error
 	if spec.Replay && e.P.Cfg.Store && !spec.Ctx {
@@ -673,7 +690,7 @@ func (e *Engine) advance(f *frame, until *mreg) bool {
 	for f.pos < len(f.snap) {
 		r := f.snap[f.pos]
 		f.pos++
-		if !accepts(r.spec.Filter, f.eid) {
+		if !r.spec.accepts(f.eid) {
 			continue
 		}
 		if f.isCancelled() {
@@ -758,7 +775,13 @@ func (e *Engine) invoke(r *mreg, ctx context.Context, id uint64, payloadOK bool)
 					}
 					e.depth--
 				}
-				if r.spec.CancelAt == k+1 && f.cancel != nil && !f.isCancelled() {
+				cancelNow := r.spec.CancelAt == k+1
+				for _, x := range r.spec.CancelIDs {
+					if x == id {
+						cancelNow = true
+					}
+				}
+				if cancelNow && f.cancel != nil && !f.isCancelled() {
 					f.cancel()
 					f.cancelled = true
 					e.Stats.Cancels++
